@@ -3,7 +3,7 @@
 import calendar
 import datetime
 
-from . import lex, mon
+from . import c10, lex, mon
 
 SPEC = {
     'rule': ('dates of years 1..9999 (weighted to month ends, December, leap days, the virtual current year) in every configured spelling '
@@ -188,7 +188,8 @@ def run_shard(ctx):
     while not ctx.out_of_time():
         # the default zone labels a date but never moves it: the calendar day read, computed and printed is the same under every zone
         dz = rng.choice(['UTC', 'UTC', 'UTC', 'EST', 'PST', 'GMT-12', 'GMT-0:30', 'CET', 'NZDT', 'IST', 'GMT+14'])
-        cfg = mon.cfg_with(tz=dz)
+        sepc = rng.choice([(',', '.'), (',', '.'), ('.', ','), ('.', ''), (',', '')])        # no date spelling depends on the number separators
+        cfg = mon.cfg_with(tz=dz, dec=sepc[0], thou=sepc[1])
         res.cover('default zone', dz)
         items, meta = [], []
         for _ in range(150):
@@ -365,6 +366,9 @@ def run_shard(ctx):
             elif exp[0] == 'duration':
                 if k != 'duration' or slot['v']['secs'] != exp[1]:
                     problem = 'expected %d days, got %s' % (exp[1] // 86400, mon.describe(slot))
+                elif slot['out'] != c10.expected_print(exp[1], lang):
+                    problem = 'the distance of %d days prints %r, expected %r' % (exp[1] // 86400, slot['out'], c10.expected_print(exp[1], lang))
+                    sig = 'date:to:print:%s' % lang
             else:
                 want = exp[1]
                 if want == 'missing-day':
